@@ -1,0 +1,47 @@
+/*
+ * Atree - Scalable Arrays and Ordered Maps
+ *
+ * Copyright Flow Foundation
+ *
+ * Licensed under the Apache License, Version 2.0 (the "License");
+ * you may not use this file except in compliance with the License.
+ * You may obtain a copy of the License at
+ *
+ *   http://www.apache.org/licenses/LICENSE-2.0
+ *
+ * Unless required by applicable law or agreed to in writing, software
+ * distributed under the License is distributed on an "AS IS" BASIS,
+ * WITHOUT WARRANTIES OR CONDITIONS OF ANY KIND, either express or implied.
+ * See the License for the specific language governing permissions and
+ * limitations under the License.
+ */
+
+//go:build verif
+
+package atree
+
+//@ # ---------------------------------------------------------------- decoders (C19 no panic / bounded allocation; C06 C08 normal form)
+
+//@ func newArrayExtraDataFromData(data, decMode, decodeTypeInfo) (extra, rest, err)
+//@   trusted "CBOR-based decoder of the extra-data section: only the length relation of the returned remainder is used here"
+//@   ensures err == nil ==> len(rest) <= len(data) && extra != nil
+//@   ensures err != nil ==> categorised(err)
+//@   modifies alloc
+
+//@ # normal form of a decoded index slab: every derived field is a function of the decoded headers
+//@ pred decodedMetaNF(s *ArrayMetaDataSlab, id SlabID) = s != nil && len(s.childrenHeaders) == len(s.childrenCountSum) && s.header.slabID == id &&
+//@      s.header.size == 12 + 14 * len(s.childrenHeaders) &&
+//@      (len(s.childrenHeaders) == 0 ==> s.header.count == 0) &&
+//@      (len(s.childrenHeaders) > 0 ==> s.header.count == s.childrenCountSum[len(s.childrenHeaders) - 1] && s.childrenCountSum[0] == s.childrenHeaders[0].count) &&
+//@      (forall k :: 1 <= k && k < len(s.childrenHeaders) ==> s.childrenCountSum[k] == s.childrenCountSum[k - 1] + s.childrenHeaders[k].count)
+
+//@ func newArrayMetaDataSlabFromDataV1(id, h, data, decMode, decodeTypeInfo) (slab, err)  serves C06 C08 C19
+//@   option alloc-bound len(data)
+//@   ensures[C19] err != nil ==> slab == nil && categorised(err)
+//@   ensures[C08] err == nil ==> fresh(slab) && decodedMetaNF(slab, id)
+//@   ensures[C06] err == nil ==> slab.header.size == 12 + 14 * len(slab.childrenHeaders)
+//@   modifies alloc
+//@   loop 1: invariant 0 <= i && i <= len(childrenHeaders) && offset == 10 + 14 * i && len(childrenHeaders) == childHeaderCount && len(childrenCountSum) == childHeaderCount &&
+//@        len(data) == 10 + 14 * childHeaderCount && totalCount == ite(i > 0, childrenCountSum[i - 1], 0) &&
+//@        (i > 0 ==> childrenCountSum[0] == childrenHeaders[0].count) &&
+//@        (forall k :: 1 <= k && k < i ==> childrenCountSum[k] == childrenCountSum[k - 1] + childrenHeaders[k].count)
